@@ -5,6 +5,8 @@ Lenses are kept physically tame (apertures and fields small against radii) so
 most rays are valid; `harsh=True` relaxes that where ray failure is the fault
 being injected.
 """
+import math
+
 from sim.sut import INF, SAMPLES
 
 GLASSES = [['glass', 'N-BK7', 'schott'], ['glass', 'N-SF11', 'schott'],
@@ -22,7 +24,8 @@ ALL_FEATURES = ['conic', 'asphere', 'poly', 'cheby', 'tilt', 'decenter',
                 'coat_simple', 'coat_fresnel', 'polarized', 'aperture',
                 'bsdf', 'multi_wl', 'units', 'fno', 'na', 'obj_height',
                 'int_coeffs', 'glass_str', 'planes', 'stop_any', 'telecentric',
-                'shared_material', 'glass_window', 'nested_cs']
+                'shared_material', 'glass_window', 'nested_cs',
+                'int_lengths']
 
 
 def pick_features(ch, allowed=None, p=0.3):
@@ -302,6 +305,20 @@ def gen_lens(ch, feats, nsurf=None, harsh=False, max_surf=12):
         ops.append({'op': 'set_polarization', 'state': st})
     if 'telecentric' in feats:
         ops.append({'op': 'set_telecentric', 'value': True})
+    if 'int_lengths' in feats:
+        # every length of the prescription a whole-numbered Python int, no
+        # decentres (legitimate input; numpy then builds integer arrays)
+        for o in ops:
+            if o.get('op') != 'add_surface':
+                continue
+            t = o.get('thickness', 0)
+            if isinstance(t, float) and math.isfinite(t):
+                o['thickness'] = int(round(t)) or (1 if t > 0 else -1)
+            o.pop('dx', None)
+            o.pop('dy', None)
+            if 'via_object' in o:
+                o['via_object']['gap'] = 0
+                o.pop('via_object')
     meta = {'nsurf': nsurf, 'finite_obj': finite_obj, 'epd': epd,
             'features': sorted(feats)}
     return ops, meta
